@@ -32,6 +32,7 @@ static size_t hw_cap = (size_t)1 << 22;
 static uint64_t hw_refused = 0;		/* refused requests, total */
 static long hw_live = 0;		/* live library blocks */
 static int hw_atexit_calls = 0;		/* atexit() registrations made by library code */
+static void (* hw_atexit_hook)(void (*)(void)) = NULL;	/* told about each of them, if set */
 #define HW_MAXREQ 64
 static size_t hw_req[HW_MAXREQ];	/* request sizes since hw_begin() */
 static int hw_nreq = 0;
@@ -247,6 +248,8 @@ __wrap_atexit(void (* fn)(void))
 	if (hw_depth == 0)
 		return (__real_atexit(fn));
 	hw_atexit_calls++;
+	if (hw_atexit_hook != NULL)
+		hw_atexit_hook(fn);
 	return (0);
 }
 
